@@ -1,6 +1,10 @@
 //! Single-thread history drivers, one per primitive family.
 
+pub mod event;
 pub mod mutex;
+pub mod oneshot;
+pub mod semaphore;
+pub mod timer;
 
 use crate::engine::{Ctx, Ev};
 
